@@ -4,6 +4,7 @@ import ArimProofs.Generated.SrcC01
 import ArimProofs.Generated.SrcC02
 import ArimProofs.Generated.SrcC04
 import ArimProofs.Generated.SrcC05
+import ArimProofs.Generated.SrcC11
 import ArimProofs.Generated.SrcC13
 import ArimProofs.Generated.SrcC17
 /-! Translation validation: this driver executes the *generated* definitions (`ArimProofs/Generated/Src*.lean`, rewritten from
@@ -89,6 +90,15 @@ def opMinCell (a : List String) : Option String :=
     pure (showFloat r.1 ++ "/" ++ toString r.2)
   | _ => none
 
+/-- `tswin delay dt t0 n` : window of the translated `_timeshift_timedomain`, and the translated remainder of its caller -/
+def opTsWin (a : List String) : Option String :=
+  match a with
+  | [delay, dt, t0, n] => do
+    let d ← float? delay; let dt ← float? dt
+    let w := Src.timeshift_window fops (fun _ => d) dt (← int? t0) (← nat? n) 0
+    pure (toString w.1 ++ ":" ++ toString w.2 ++ "/" ++ showFloat (Src.delay_remainder fops d dt))
+  | _ => none
+
 def route (op : String) (args : List String) : String :=
   let r := match op with
     | "huber" => opHuber args
@@ -98,6 +108,7 @@ def route (op : String) (args : List String) : String :=
     | "signed" => opSigned args
     | "expand" => opExpand args
     | "mincell" => opMinCell args
+    | "tswin" => opTsWin args
     | _ => none
   match r with
   | some s => "ok " ++ s
